@@ -155,8 +155,32 @@ func (w *World) LemmaVC(ax *Axiom) *FuncVC {
 		ihBody := substIdent(q.Body, ind, EBinary{"-", EIdent{ind}, EInt{"1"}})
 		var ihTrig [][]Expr
 		for _, tr := range q.Triggers {
-			var ts []Expr
+			// in the hypothesis the induction variable is fixed (ind-1): a trigger term that exists only
+			// to bind it is dropped when the remaining terms still mention every other variable
+			var keep []Expr
 			for _, t := range tr {
+				if !mentionsIdent(t, ind) {
+					keep = append(keep, t)
+				}
+			}
+			covers := len(keep) > 0 && len(keep) < len(tr)
+			for _, v := range others {
+				seen := false
+				for _, t := range keep {
+					if mentionsIdent(t, v.Name) {
+						seen = true
+					}
+				}
+				if !seen {
+					covers = false
+				}
+			}
+			src := tr
+			if covers {
+				src = keep
+			}
+			var ts []Expr
+			for _, t := range src {
 				ts = append(ts, substIdent(t, ind, EBinary{"-", EIdent{ind}, EInt{"1"}}))
 			}
 			ihTrig = append(ihTrig, ts)
@@ -206,4 +230,10 @@ func MemLemmas() []*Obligation {
 			Note: "word-level memory axiom proved from the little-endian byte definitions: " + ax})
 	}
 	return out
+}
+
+// mentionsIdent: does the expression contain the identifier?
+func mentionsIdent(e Expr, name string) bool {
+	marker := EIdent{"\x00mark"}
+	return fmt.Sprintf("%#v", substIdent(e, name, marker)) != fmt.Sprintf("%#v", e)
 }
